@@ -54,6 +54,9 @@ class TcpUpstreamConnectionHandler(ABC):
         # This can be abstracted out too.
         self.server_recvbuf_size = args[1].server_recvbuf_size
         self.total_size = 0
+        # False until the descriptor of the current upstream has been
+        # handed out by get_descriptors() at least once.
+        self._upstream_polled = False
 
     @abstractmethod
     def handle_upstream_data(self, raw: memoryview) -> None:
@@ -61,17 +64,22 @@ class TcpUpstreamConnectionHandler(ABC):
 
     def initialize_upstream(self, addr: str, port: int) -> None:
         self.upstream = TcpServerConnection(addr, port)
+        # Readiness reported for the ongoing tick was computed before this
+        # upstream existed.  It may still name the descriptor number of a
+        # previous upstream, which the OS is free to hand out again.
+        self._upstream_polled = False
 
     async def get_descriptors(self) -> Descriptors:
         if not self.upstream:
             return [], []
+        self._upstream_polled = True
         return [self.upstream.connection.fileno()], \
             [self.upstream.connection.fileno()] \
             if self.upstream.has_buffer() \
             else []
 
     async def read_from_descriptors(self, r: Readables) -> bool:
-        if self.upstream and \
+        if self.upstream and self._upstream_polled and \
                 self.upstream.connection.fileno() in r:
             try:
                 raw = self.upstream.recv(self.server_recvbuf_size)
@@ -92,7 +100,7 @@ class TcpUpstreamConnectionHandler(ABC):
         return False
 
     async def write_to_descriptors(self, w: Writables) -> bool:
-        if self.upstream and \
+        if self.upstream and self._upstream_polled and \
                 self.upstream.connection.fileno() in w and \
                 self.upstream.has_buffer():
             try:
